@@ -1,4 +1,176 @@
+(* Props/C16.v -- closing always terminates cleanly on both sides, from any state, repeatedly.
+
+   Setting of every theorem: the step list of the repaired tree ([New]), a registered client /
+   server pair with its five service goroutines ([pool0]: client listen, client eventer, server
+   loop, listener, the handler for delivered shutdown notices), ANY list [calls] of close calls
+   ([entry]: Session.Close on either end, context cancel, Server.Remove, extra handlers for
+   SvShutdown packets a peer sends on its own, Listener.Close, Server.Close, in any number),
+   ANY schedule [sched] (list of thread indices of any length), all protocol-state flags of
+   [world0] (Packets() on either side, channel mode, server reachable, client calls back).
+   A call "issued later" is a thread the schedule does not pick until later, so "from any
+   reachable state" is covered by quantifying over all schedules. *)
+From Coq Require Import List Lia Bool Arith.
 From XMT Require Import Base.Prelude Model.Close Proofs.Close.
-Theorem C16_placeholder : chan_eqb Open Open = true.
-Proof. exact placeholder_c16. Qed.
-Print Assumptions C16_placeholder.
+Import ListNotations.
+Local Open Scope nat_scope.
+
+(* ---- channels_closed_once ---------------------------------------------------------------- *)
+(* Full statement (FALSE on the tree, see C16_channels_closed_once_refuted):
+     forall flags calls sched, forallb entry calls = true ->
+       faulted (run New sched (pool0 calls) (world0 flags)) = false.
+   Honest variant: the ONLY fault any interleaving can reach is Server.Remove's send on
+   delSession after Server.shutdown closed it; no channel is ever closed twice or closed while
+   nil, and no send hits a closed send / wake / recv / done / listener channel. *)
+Theorem C16_channels_closed_once_partial :
+  forall cpk spk chm rch cbk calls sched f t,
+    forallb entry calls = true ->
+    run New sched (pool0 calls) (world0 cpk spk chm rch cbk) = Faulted f t -> f = SendOnClosed NDelS.
+Proof. exact channels_closed_once_partial. Qed.
+Print Assumptions C16_channels_closed_once_partial.
+
+(* ... and at full strength when no Server.Close is among the calls (sessions and listener only) *)
+Theorem C16_channels_closed_once_sessions :
+  forall cpk spk chm rch cbk calls sched,
+    forallb entry_ns calls = true ->
+    faulted (run New sched (pool0 calls) (world0 cpk spk chm rch cbk)) = false.
+Proof. exact channels_closed_once_sessions. Qed.
+Print Assumptions C16_channels_closed_once_sessions.
+
+Theorem C16_channels_closed_once_refuted :
+  exists calls sched, forallb entry calls = true /\
+    faulted (run New sched (pool0 calls) (world0 false false false true false)) = true.
+Proof. exact channels_closed_once_refuted. Qed.
+Print Assumptions C16_channels_closed_once_refuted.
+
+Theorem C16_remove_race_witness :
+  run New sched_remove_race (pool0 [SH0 false; SV0]) (world0 false false false true false)
+  = Faulted (SendOnClosed NDelS) 5.
+Proof. exact remove_race_refuted. Qed.
+Print Assumptions C16_remove_race_witness.
+
+(* the state bits and the channels agree in every reachable state *)
+Theorem C16_flags_match_channels :
+  forall cpk spk chm rch cbk calls sched pool w,
+    forallb entry calls = true ->
+    run New sched (pool0 calls) (world0 cpk spk chm rch cbk) = Running pool w ->
+    sess_ok (cli w) = true /\ sess_ok (srv w) = true.
+Proof. exact flags_match_channels. Qed.
+Print Assumptions C16_flags_match_channels.
+
+(* ---- closed_is_final: any step list, any state, any pool, any schedule -------------------- *)
+Theorem C16_closed_is_final :
+  forall m sched pool w pool' w', run m sched pool w = Running pool' w' -> world_le w w' = true.
+Proof. exact closed_is_final. Qed.
+Print Assumptions C16_closed_is_final.
+
+(* ---- close_returns ------------------------------------------------------------------------ *)
+(* Session.Close on the client waits for s.ch.  In any reachable state in which some thread
+   stands in Close after Set(stateClosing) (CC3, CC4 or the wait CC5), every continuation in
+   which the listen goroutine (thread 0) gets 16 steps ends with s.ch closed, so the waiting
+   call returns at its next step -- and for ever after (closed_is_final).  Fairness assumption:
+   "thread 0 occurs 16 times"; the listen goroutine is never blocked while Closing is set. *)
+Theorem C16_close_returns_client :
+  forall cpk spk chm rch cbk calls s0 pool w j q s1 pool' w',
+    forallb entry calls = true ->
+    run New s0 (pool0 calls) (world0 cpk spk chm rch cbk) = Running pool w ->
+    nth_error pool j = Some q -> at_cc35 q = true ->
+    16 <= count_occ_nat 0 s1 ->
+    run New s1 pool w = Running pool' w' ->
+    is_closed (done (cli w')) = true /\ exec New CC5 w' = Step w' PDone.
+Proof. exact close_returns_client. Qed.
+Print Assumptions C16_close_returns_client.
+
+(* Listener.Close waits for l.ch: released once the listener goroutine (thread 3) got 5 steps *)
+Theorem C16_close_returns_listener :
+  forall cpk spk chm rch cbk calls s0 pool w j q s1 pool' w' r,
+    forallb entry calls = true ->
+    run New s0 (pool0 calls) (world0 cpk spk chm rch cbk) = Running pool w ->
+    nth_error pool j = Some q -> at_lc24 q = true ->
+    5 <= count_occ_nat 3 s1 ->
+    run New s1 pool w = Running pool' w' ->
+    is_closed (l_done w') = true /\ exec New (LC4 r) w' = Step w' (ret_pc r).
+Proof. exact close_returns_listener. Qed.
+Print Assumptions C16_close_returns_listener.
+
+(* ---- peer_notified ------------------------------------------------------------------------- *)
+(* a closed client whose server was reachable has sent SvShutdown in its last transmission *)
+Theorem C16_peer_notified_client :
+  forall cpk spk chm rch cbk calls sched pool w,
+    forallb entry calls = true ->
+    run New sched (pool0 calls) (world0 cpk spk chm rch cbk) = Running pool w ->
+    closed (cli w) = true -> reachable w = true -> sent_shut w = true.
+Proof. exact peer_notified_client. Qed.
+Print Assumptions C16_peer_notified_client.
+
+(* a server-side Close queues the notice ... *)
+Theorem C16_server_close_queues_notice :
+  forall m r w,
+    exec m (SC2 r) w = Step (put Srv (set_peek true (srv w)) w) (SC3 r) /\
+    peek (srv (put Srv (set_peek true (srv w)) w)) = true.
+Proof. exact server_close_queues_notice. Qed.
+Print Assumptions C16_server_close_queues_notice.
+
+(* ... the next exchange of a reachable client that calls back delivers it (hypothesis "the
+   peer performs one more exchange" = callsback && reachable) ... *)
+Theorem C16_notice_is_delivered :
+  forall w, Closing (cli w) = false -> ctxdone w = false -> callsback w = true -> reachable w = true ->
+    peek (srv w) = true -> exec New CL0 w = Step (put Srv (set_peek false (srv w)) w) CR0.
+Proof. exact notice_is_delivered. Qed.
+Print Assumptions C16_notice_is_delivered.
+
+(* ... and its receipt closes the client: four steps of the listen goroutine later, whatever
+   the other threads do in between, the client is closing *)
+Theorem C16_receipt_closes_client :
+  forall sched pool w pool' w',
+    nth_error pool 0 = Some CR0 -> 4 <= count_occ_nat 0 sched ->
+    run New sched pool w = Running pool' w' -> Closing (cli w') = true.
+Proof. exact receipt_closes_client. Qed.
+Print Assumptions C16_receipt_closes_client.
+
+(* ---- server_forgets ------------------------------------------------------------------------- *)
+(* a closed server-side session is unlisted once the removal requests its shutdown queued have
+   been taken by the (running) server loop *)
+Theorem C16_server_forgets :
+  forall cpk spk chm rch cbk calls sched pool w,
+    forallb entry calls = true ->
+    run New sched (pool0 calls) (world0 cpk spk chm rch cbk) = Running pool w ->
+    closed (srv w) = true -> sctx_done w = false -> delq w = 0 -> cnt at_sd12_srv pool = 0 ->
+    listed w = false.
+Proof. exact server_forgets. Qed.
+Print Assumptions C16_server_forgets.
+
+(* ---- regression: the step list of the tree before the four repairs ------------------------ *)
+Theorem C16_double_close_ch_refuted :
+  run Old sched_double_close (pool0 [SH0 false; SH0 false]) w_reg = Faulted (DoubleClose NDone) 6.
+Proof. exact double_close_ch_refuted. Qed.
+Print Assumptions C16_double_close_ch_refuted.
+
+Theorem C16_double_close_ch_repaired :
+  faulted (run New sched_double_close (pool0 [SH0 false; SH0 false]) w_reg) = false.
+Proof. exact double_close_ch_repaired. Qed.
+Print Assumptions C16_double_close_ch_repaired.
+
+Theorem C16_eventer_spins_old :
+  forall w, ctxdone w = false -> is_closed (mux (cli w)) = true ->
+    exec Old CE0 w = Step w CE0 /\ exec New CE0 w = Step w PDone.
+Proof. exact eventer_spins_old. Qed.
+Print Assumptions C16_eventer_spins_old.
+
+Theorem C16_send_on_closed_refuted :
+  run Old sched_send_closed (pool0 [SH0 false; SH0 false]) w_reg = Faulted (SendOnClosed NSend) 5.
+Proof. exact send_on_closed_refuted. Qed.
+Print Assumptions C16_send_on_closed_refuted.
+
+Theorem C16_final_notice_lost_refuted :
+  notice_lost (run Old sched_notice_lost (pool0 [CC0 true; CX]) w_reg) = true /\
+  notice_lost (run New sched_notice_lost (pool0 [CC0 true; CX]) w_reg) = false.
+Proof. exact (conj final_notice_lost_refuted final_notice_repaired). Qed.
+Print Assumptions C16_final_notice_lost_refuted.
+
+(* ---- non-vacuity --------------------------------------------------------------------------- *)
+(* three concurrent calls (client Close, server-side Close, context cancel) on a registered
+   pair under the fair round-robin schedule: every call returns, both ends are closed and
+   released, the notice went out, the server forgot the session, the client's goroutines ended *)
+Example C16_nonvacuous_three_threads :
+  all_done (model_run New false false false true true [[1; 4; 3]]%Z) = true.
+Proof. exact nonvacuous_three_threads. Qed.
